@@ -24,7 +24,10 @@ use std::process::{Command, Stdio};
 use std::sync::{mpsc, Arc, Barrier};
 use std::time::{Duration, Instant};
 
-const ENGINES: [&str; 6] = ["naive", "nosimd", "ssse3", "avx2", "default", "neonemu"];
+/// Engines this host can run (the same list in the parent and in every child, so expected digests agree).
+fn engines() -> Vec<&'static str> {
+    crate::engines::usable_engines()
+}
 const TABLES: [&str; 5] = ["EXP_LOG", "LOG_WALSH", "MUL16", "MUL128", "SKEW"];
 
 #[derive(Clone, Copy)]
@@ -39,7 +42,7 @@ struct Scn {
 fn scenario(i: usize, seed: u64) -> Scn {
     let cfgs = [(5usize, 3usize, 64usize), (3, 5, 66), (20, 7, 2), (7, 20, 130), (64, 64, 64), (200, 30, 6)];
     let (k, r, sb) = cfgs[(i + seed as usize) % cfgs.len()];
-    Scn { engine: ENGINES[(i * 5 + seed as usize) % ENGINES.len()], k, r, sb, handover: false }
+    Scn { engine: engines()[(i * 5 + seed as usize) % engines().len()], k, r, sb, handover: false }
 }
 
 /// The whole scenario on the calling thread: encode, then decode at maximum loss. Returns a digest.
@@ -203,7 +206,7 @@ pub fn child(args: &Args) -> i32 {
         }
         "probe-prog" => {
             let engine = args.req("engine");
-            let s = Scn { engine: ENGINES.iter().copied().find(|e| *e == engine).unwrap(), k: 5, r: 3, sb: 64, handover: false };
+            let s = Scn { engine: engines().iter().copied().find(|e| *e == engine).unwrap(), k: 5, r: 3, sb: 64, handover: false };
             let role = args.req("role");
             with_engine!(s.engine, E, {
                 if role == "enc" {
@@ -267,7 +270,7 @@ pub fn child(args: &Args) -> i32 {
             let mut handles = Vec::new();
             for i in 0..n {
                 handles.push(std::thread::spawn(move || -> (usize, &'static str, String) {
-                    let engine = ENGINES[(i + seed as usize) % ENGINES.len()];
+                    let engine = engines()[(i + seed as usize) % engines().len()];
                     let d = with_engine!(engine, E, {
                         type Pair<E> = (EncObj<E>, DecObj<E>);
                         let (to_helper, helper_rx) = mpsc::channel::<Pair<E>>();
@@ -290,7 +293,7 @@ pub fn child(args: &Args) -> i32 {
                             let s = Scn { engine: "naive", k: 3, r: 5, sb: 66, handover: false };
                             let _ = run_scn::<E>(&s, seed + 78);
                             to_helper.send((enc, dec)).unwrap();
-                            main_rx.recv_timeout(Duration::from_secs(30)).expect("objects back")
+                            main_rx.recv_timeout(Duration::from_secs(300)).expect("objects back")
                         });
                         drop(to_helper);
                         helper.join().unwrap();
@@ -461,7 +464,7 @@ pub fn child(args: &Args) -> i32 {
                         out.push((i + 100, s.engine, run_scn::<E>(&scenario(i + 3, seed), seed + 100 + i as u64)));
                     });
                     if expects_parcel {
-                        let parcel = rx.recv_timeout(Duration::from_secs(30)).expect("parcel");
+                        let parcel = rx.recv_timeout(Duration::from_secs(300)).expect("parcel");
                         out.push(((i + n - 1) % n, "handover", parcel()));
                     }
                     out
@@ -523,7 +526,7 @@ fn expected_storm(n: usize, seed: u64) -> Vec<(usize, String)> {
 fn expected_pingpong(n: usize, seed: u64) -> Vec<(usize, String)> {
     (0..n)
         .map(|i| {
-            let engine = ENGINES[(i + seed as usize) % ENGINES.len()];
+            let engine = engines()[(i + seed as usize) % engines().len()];
             let d = with_engine!(engine, E, {
                 multi_round::<E>(seed + i as u64, 3, |enc, dec| {
                     let mut boxed = Some((enc, dec));
@@ -644,10 +647,15 @@ fn touch_table(t: &str) {
 
 /// The engine whose rounds use table `t` (all of them use EXP_LOG, SKEW and, when decoding, LOG_WALSH).
 fn engine_for(t: &str, i: usize) -> &'static str {
+    let pick = |want: &[&'static str]| -> &'static str {
+        let have = engines();
+        let ok: Vec<&'static str> = want.iter().copied().filter(|w| have.contains(w)).collect();
+        ok[i % ok.len()]
+    };
     match t {
         "MUL16" => "nosimd",
-        "MUL128" => ["avx2", "ssse3", "default"][i % 3],
-        _ => ["naive", "nosimd", "avx2"][i % 3],
+        "MUL128" => pick(&["avx2", "ssse3", "default"]),
+        _ => pick(&["naive", "nosimd", "avx2"]),
     }
 }
 
@@ -875,7 +883,7 @@ fn run_child(args: &[String], timeout: Duration) -> ChildOut {
                 let f: Vec<&str> = rest.split_whitespace().collect();
                 Some((f.get(11)?.parse::<f64>().ok()? + f.get(12)?.parse::<f64>().ok()?) / 100.0)
             })
-            .unwrap_or(f64::MAX)
+            .unwrap_or(-1.0)
     };
     let mut deadline = timeout;
     let mut extensions = 0;
@@ -887,7 +895,9 @@ fn run_child(args: &[String], timeout: Duration) -> ChildOut {
                     let used = cpu_secs(ch.id());
                     let before = used;
                     std::thread::sleep(Duration::from_millis(1500));
-                    let progressing = cpu_secs(ch.id()) > before + 0.05;
+                    let after = cpu_secs(ch.id());
+                    // (CPU time that cannot be read is no evidence of a hang)
+                    let progressing = after > before + 0.05 || after < 0.0 || before < 0.0;
                     if extensions < 6 && used < 20.0 && progressing {
                         extensions += 1;
                         deadline += timeout;
